@@ -1,24 +1,18 @@
 import CifModel.Props.C20
 /-
-  Review examples for C20 (group gB, independent review).
+  Review examples for C20 (group gB, independent review; updated by the coordinator after the finding was repaired).
 
-  `C20_table` decides "the message describes that very condition" with the keyword groups of Spec/ErrWords.  The instances
-  below show that the groups do not discriminate: the message of ANOTHER code is accepted for the name on the left, in two
-  cases in both directions — so exchanging the two initialisers in cif.c would leave `C20_table`, `C20_distinct`,
-  `C20_nerr_is_length` and `C20_codes_unique` all true (notes/review/gB-review.md, C20 S1).
+  The review found that the keyword groups of Spec/ErrWords did not discriminate: 20 (name, foreign message) pairs were accepted,
+  two of them in both directions, so exchanging two initialisers in cif.c left every C20 theorem true.  The groups were tightened
+  (negative groups, more specific alternatives) and `C20_discriminates` now proves that no message of the header describes the
+  condition of another code.  The instances below are the former counterexamples, now refused.
 -/
 namespace CifModel.ReviewC20
 open CifModel Gen Model Spec
 
-/-- `describes name (message of code k)` -/
-def acc (name : Str) (k : Nat) : Bool :=
-  match ErrList.message k with
-  | some m => ErrWords.describes name m
-  | none => false
-
--- a swap that no C20 theorem notices (both directions accepted)
-example : acc (a!"CIF_INVALID_BARE_VALUE") ErrCodes.CIF_MISSING_ENDQUOTE = true
-        ∧ acc (a!"CIF_MISSING_ENDQUOTE") ErrCodes.CIF_INVALID_BARE_VALUE = true := by decide +kernel
+-- the swap that no C20 theorem noticed: both directions are refused now
+example : C20_slotDescribes (a!"CIF_INVALID_BARE_VALUE") ErrCodes.CIF_MISSING_ENDQUOTE = false
+        ∧ C20_slotDescribes (a!"CIF_MISSING_ENDQUOTE") ErrCodes.CIF_INVALID_BARE_VALUE = false := by decide +kernel
 
 /-- the row predicate of C20 on a table in which the messages of codes `i` and `j` are exchanged -/
 def rowOkSwapped (i j : Nat) (r : Str × Nat) : Bool :=
@@ -27,20 +21,15 @@ def rowOkSwapped (i j : Nat) (r : Str × Nat) : Bool :=
   | none => false
   | some msg => msg != [] && msg.length < ErrCodes.width && ErrWords.describes r.1 msg
 
-example : ErrCodes.codes.all (rowOkSwapped ErrCodes.CIF_INVALID_BARE_VALUE ErrCodes.CIF_MISSING_ENDQUOTE) = true := by decide +kernel
+-- exchanging the two messages is noticed by the row predicate of `C20_table`
+example : ErrCodes.codes.all (rowOkSwapped ErrCodes.CIF_INVALID_BARE_VALUE ErrCodes.CIF_MISSING_ENDQUOTE) = false := by decide +kernel
 
--- one-directional acceptances of a foreign message
-example : acc (a!"CIF_DISALLOWED_VALUE") ErrCodes.CIF_INVALID_BARE_VALUE = true := by decide +kernel
-example : acc (a!"CIF_DISALLOWED_VALUE") ErrCodes.CIF_RESERVED_WORD = true := by decide +kernel
-example : acc (a!"CIF_INVALID_INDEX") ErrCodes.CIF_DISALLOWED_VALUE = true := by decide +kernel
-example : acc (a!"CIF_RESERVED_LOOP") ErrCodes.CIF_RESERVED_WORD = true := by decide +kernel
-
-/-- how many (name, foreign message) pairs of the header are accepted; a discriminating spec would give 0 -/
-def confusions : Nat :=
-  (ErrCodes.codes.map (fun r => (ErrCodes.codes.filter (fun s => s.2 != r.2 && acc r.1 s.2)).length)).sum
-
--- `#eval confusions` gives 20 on the pinned tree (10 names accept 1-6 foreign messages each); deciding it in the kernel takes
--- about 15 s, so only the instances above are checked here.
+-- former one-directional acceptances of a foreign message
+example : C20_slotDescribes (a!"CIF_DISALLOWED_VALUE") ErrCodes.CIF_INVALID_BARE_VALUE = false := by decide +kernel
+example : C20_slotDescribes (a!"CIF_DISALLOWED_VALUE") ErrCodes.CIF_RESERVED_WORD = false := by decide +kernel
+example : C20_slotDescribes (a!"CIF_INVALID_INDEX") ErrCodes.CIF_DISALLOWED_VALUE = false := by decide +kernel
+example : C20_slotDescribes (a!"CIF_RESERVED_LOOP") ErrCodes.CIF_RESERVED_WORD = false := by decide +kernel
+example : C20_slotDescribes (a!"CIF_EMPTY_LOOP") ErrCodes.CIF_NULL_LOOP = false := by decide +kernel
 
 -- every name of the header has its own row in the keyword table (the `nameWords` fallback is not in use at present)
 example : ErrCodes.codes.all (fun r => (ErrWords.table.find? (fun t => t.1 == r.1)).isSome) = true := by decide +kernel
